@@ -109,13 +109,40 @@ def coq_project():
                        capture_output=True)
 
 
-def gate():
-    """The grep gate: no Admitted/admit/Axiom/Parameter/... anywhere in the development."""
+def coq_closure(pid):
+    """The .v files Properties/<pid>.v depends on inside the development (transitively)."""
+    todo = [os.path.join(COQ, "Properties", pid + ".v")]
+    seen = []
+    while todo:
+        p = todo.pop()
+        if p in seen or not os.path.exists(p):
+            continue
+        seen.append(p)
+        txt = open(p).read()
+        for m in re.finditer(r"From\s+Scenic\s+Require\s+(?:Import\s+|Export\s+)?([\w.\s]+?)\.(?:\s|$)", txt):
+            for mod in m.group(1).split():
+                todo.append(os.path.join(COQ, *mod.split(".")) + ".v")
+        for m in re.finditer(r"(?<!Scenic\s)Require\s+(?:Import\s+|Export\s+)?((?:Scenic\.[\w.]+\s*)+?)\.(?:\s|$)", txt):
+            for mod in m.group(1).split():
+                todo.append(os.path.join(COQ, *mod.split(".")[1:]) + ".v")
+    return seen
+
+
+def gate(pid=None):
+    """The grep gate: no Admitted/admit/Axiom/Parameter/... in the development (restricted to the
+    dependency closure of Properties/<pid>.v plus coq/<pid>/ when pid is given)."""
     bad = []
+    only = None
+    if pid:
+        only = set(coq_closure(pid))
+        for root, _, files in os.walk(os.path.join(COQ, pid)):
+            only.update(os.path.join(root, f) for f in files if f.endswith(".v"))
     for root, _, files in os.walk(COQ):
         for f in files:
             if f.endswith(".v"):
                 p = os.path.join(root, f)
+                if only is not None and p not in only:
+                    continue
                 txt = open(p).read()
                 # strip comments (non-nested is enough for the gate; nested handled by loop)
                 prev = None
@@ -301,11 +328,11 @@ class Check:
     # -- proof layer
     def proofs(self):
         """make the development, gate it, re-check Properties/<pid>.v."""
-        ok, log = build_coq()
+        ok, log = build_coq(targets=[f"Properties/{self.pid}.vo"])
         if not ok:
-            self.violation("proof-build", "the Coq development no longer builds", dict(log=log), no_input=True)
+            self.violation("proof-build", "the Coq development (dependencies of this property) no longer builds", dict(log=log), no_input=True)
             return False
-        bad = gate()
+        bad = gate(self.pid)
         if bad:
             self.violation("gate", "forbidden construct in the development", dict(lines=bad), no_input=True)
             return False
